@@ -269,6 +269,20 @@ pub const TT_REL_TOL: f64 = 1e-3;
 /// Documented sparse-storage threshold of the embedding slab.
 const SPARSE_THR: f32 = 1e-6;
 
+/// How badly a reconstruction missed (part of the signature, so that a small loss of accuracy is not
+/// hidden behind the recorded "comes back as zeros" finding).
+fn err_bucket(e: f64, new: &[f32]) -> &'static str {
+    if new.iter().all(|x| *x == 0.0) {
+        "reconstructed-as-all-zeros"
+    } else if e >= 0.1 {
+        "error-above-10-percent"
+    } else if e >= 0.01 {
+        "error-1-to-10-percent"
+    } else {
+        "error-below-1-percent"
+    }
+}
+
 /// Finite and far from f32 overflow when squared and summed (the decomposition works with norms).
 fn moderate(v: &[f32]) -> bool {
     v.iter().all(|x| x.is_finite() && x.abs() <= 1e15)
@@ -320,7 +334,7 @@ impl Cmp<'_, '_> {
                     let e = rel_l2(orig, new);
                     self.ctx.label("quant: TT vector with bounded rank checked against tolerance");
                     if e > TT_REL_TOL {
-                        return self.fail(&format!("vector:tt:lowrank-error:{class}"), format!("{key}: vector generated with TT-rank <= 3 ({class}) reconstructed with relative L2 error {e:.3e} > {TT_REL_TOL:e}"));
+                        return self.fail(&format!("vector:tt:lowrank-error:{class}:{}", err_bucket(e, new)), format!("{key}: vector generated with TT-rank <= 3 ({class}) reconstructed with relative L2 error {e:.3e} > {TT_REL_TOL:e}"));
                     }
                 }
                 return Ok(());
@@ -377,7 +391,7 @@ impl Cmp<'_, '_> {
             let e = rel_l2(orig, new);
             self.ctx.label(format!("emb-slab TT vector checked against tolerance:{class}"));
             if e > TT_REL_TOL {
-                return self.fail(&format!("emb-slab:tt:lowrank-error:{class}"), format!("{key}: {n}-dim vector generated with TT-rank <= 3 ({class}) reconstructed with relative L2 error {e:.3e} > {TT_REL_TOL:e}"));
+                return self.fail(&format!("emb-slab:tt:lowrank-error:{class}:{}", err_bucket(e, new)), format!("{key}: {n}-dim vector generated with TT-rank <= 3 ({class}) reconstructed with relative L2 error {e:.3e} > {TT_REL_TOL:e}"));
             }
         }
         Ok(())
